@@ -21,6 +21,17 @@ fn cpu_ticks() -> u64 {
     u + k
 }
 
+fn thread_ticks(tids: &[u64]) -> u64 {
+    let mut t = 0;
+    for tid in tids {
+        let st = std::fs::read_to_string(format!("/proc/self/task/{tid}/stat")).unwrap_or_default();
+        let rest = st.rsplit(')').next().unwrap_or("").to_string();
+        let f: Vec<&str> = rest.split_whitespace().collect();
+        t += f.get(11).and_then(|x| x.parse::<u64>().ok()).unwrap_or(0) + f.get(12).and_then(|x| x.parse::<u64>().ok()).unwrap_or(0);
+    }
+    t
+}
+
 fn project(lines: Vec<Value>) -> Vec<Value> {
     let mut out = vec![json!({"ev":"Reset"})];
     for l in lines {
@@ -78,12 +89,16 @@ pub fn c08(args: &[String]) {
     let progress = Arc::new(AtomicU64::new(0));
     let stop = Arc::new(AtomicBool::new(false));
     let done = Arc::new(AtomicBool::new(false));
+    let caller_tids: Arc<std::sync::Mutex<Vec<u64>>> = Arc::new(std::sync::Mutex::new(Vec::new()));
 
-    // watchdog: blocked = no progress for 4 s while the process burns no CPU
+    // watchdog: blocked = no call completed for 4 s while the CALLER threads burn no CPU
+    // (loader and event threads keep running and do not count)
     {
         let progress = progress.clone();
         let done = done.clone();
         let out = out.clone();
+        let caller_tids = caller_tids.clone();
+        let cpu_ticks = move || thread_ticks(&caller_tids.lock().unwrap());
         std::thread::spawn(move || {
             let mut last = progress.load(Ordering::SeqCst);
             let mut last_cpu = cpu_ticks();
@@ -114,8 +129,10 @@ pub fn c08(args: &[String]) {
     for i in 0..callers {
         let cache = cache.clone();
         let progress = progress.clone();
+        let caller_tids = caller_tids.clone();
         handles.push(std::thread::spawn(move || {
             trace::set_thread(&format!("t{}", i + 1));
+            caller_tids.lock().unwrap().push(unsafe { libc::syscall(libc::SYS_gettid) } as u64);
             for _ in 0..calls {
                 cache.hot_reload();
                 trace::emit(json!({"ev":"End","op":"hot_reload"}));
@@ -463,6 +480,21 @@ pub fn c07(args: &[String]) {
             }
         }));
     }
+    // tight loops on the accessors that look lock-free: whole values only
+    let torn_copies = Arc::new(AtomicU64::new(0));
+    for i in 0..2 {
+        let stop = stop.clone();
+        let torn_copies = torn_copies.clone();
+        readers.push(std::thread::spawn(move || {
+            trace::set_thread(&format!("c{}", i + 1));
+            while !stop.load(Ordering::Relaxed) {
+                let c = if i == 0 { h.copied() } else { h.cloned() };
+                if !uniform(&c.words).1 {
+                    torn_copies.fetch_add(1, Ordering::Relaxed);
+                }
+            }
+        }));
+    }
     let mut sent = 0usize;
     for k in 1..=writes {
         src.put("a", "x", format!("v{k}").as_bytes());
@@ -488,7 +520,7 @@ pub fn c07(args: &[String]) {
     }
     let lines = trace::take();
     let mut proj = Vec::new();
-    let mut torn = 0;
+    let mut torn = torn_copies.load(Ordering::SeqCst);
     for l in lines {
         match l["ev"].as_str() {
             Some("Notified") => proj.push(json!({"ev":"Notified"})),
